@@ -106,7 +106,10 @@ def _rows(repo, col):
     stv = [s for s in ex.stores if s.kind == "mcall" and s.key.name == "append" and
            Classifier._is_named(s.base, "indices_set_by_trainables")]
     if not stv:
-        raise AnalysisError("make_trainable: append to indices_set_by_trainables not found")
+        col.bad("R-C10-pair", fi, "make_trainable appends the index array of the new trainable",
+                "make_trainable no longer appends to indices_set_by_trainables: trainable_params and their indices get out of step",
+                node=fi.node)
+        return
     v = stv[0].value.args[1]
     gb = T.find(v, lambda x: x.op == "mcall" and x.name == "groupby")
     ok = False
